@@ -20,7 +20,8 @@ def eps_of(cfg):
 
 def feps_of(cfg):
     fd = cfg.get('kfac', {}).get('factor_dtype') or cfg.get('dtype', 'f32')
-    return {'f32': 1.2e-7, 'f64': 2.3e-16, 'bf16': 7.9e-3}[fd]
+    return {'f32': 1.2e-7, 'f64': 2.3e-16, 'bf16': 7.9e-3,
+            'f16': 9.8e-4}[fd]
 
 
 def kappa(method, A, G, lam):
@@ -76,6 +77,10 @@ def factors_vs_ref(cfg, ev, rv, who='', stats=None):
                 v.append(('factor-dtype', f'{who}{nm}.{k} stored as '
                           f'{t.dtype}, requested {want_dtype}'))
             t64 = t.to(F64)
+            if not torch.isfinite(t64).all():
+                v.append(('factor-nonfinite', f'{who}{nm}.{k} is not finite '
+                          '(the running average of finite batch moments)'))
+                continue
             e = K.rel_err(t64, ref)
             tol = 40 * max(fe, 1e-7)
             if stats is not None:
